@@ -426,3 +426,8 @@ mod tests {
         assert_eq!(3655681, cm[1].value());
     }
 }
+
+// Verification hook (add-only): compiled only under `cargo kani` or `--cfg heathcliff_verif`.
+#[cfg(any(kani, heathcliff_verif))]
+#[path = "/verif/incrate/modulus_v.rs"]
+pub(crate) mod verif_v;
